@@ -21,6 +21,8 @@ def err {α} (k : String) : Except Err α := .error ⟨k⟩
     Begin/EndBlock it halts the chain -/
 def panicE {α} (site : String) : Except Err α := .error ⟨"panic:" ++ site⟩
 def Err.isPanic (e : Err) : Bool := e.kind.startsWith "panic:"
+/-- rejected by the message's `ValidateBasic`, i.e. before the ante handler: no fee is charged -/
+def Err.isBasic (e : Err) : Bool := e.kind.startsWith "basic:"
 
 abbrev Posting := Addr × Denom × Int
 
